@@ -2,12 +2,12 @@
 
   c18.code   {"world": [cls…], "val": V, "var": "obj"}
              → {"ok": {"text": source, "outcome": "equal|unequal|exc:<T>|unmodelled",
-                        "imports": [[module, name]…]}}
+                        "hyps": {"wf","dom","clean","imports"}, "imports": [[module, name]…]}}
   c18.dq     {"s": "..."}  → {"ok": decoded} | {"err": "unmodelled"}   (body of a "…" literal)
   c18.pyeq   {"world": [], "a": V, "b": V} → {"ok": bool}
 -/
 import Driver.Proto
-import XsdataModel.Code.Pycode
+import XsdataModel.Code.PycodeWF
 open Lean Proto Py Xs.Code
 
 namespace OpsCode
@@ -108,6 +108,9 @@ def run (op : String) (a : Json) : Option (Except String Json) :=
       pure <| ok (jObj [
         ("text", jStr (sourceC cfg W v var)),
         ("outcome", jStr (outcomeC cfg W v)),
+        -- the hypotheses of Props.C18.code_rt_cfg on this input
+        ("hyps", jObj [("wf", jBool (wf W v)), ("dom", jBool (domOK W v)), ("clean", jBool (clean cfg v)),
+                       ("imports", jBool (importsOKC cfg W v))]),
         ("imports", jList (fun p => Json.arr #[jStr p.1, jStr p.2]) (importsEnv W v))])
   | "c18.dq" => some do
       let s ← getStr a "s"
